@@ -38,6 +38,9 @@ def lookup(par, key):
 
 def run(ctx):
     mod = extract.load(MOD)
+    # the containers the edits are built on - set / add / delete of a field go through set_kvpair_element / remove_kvpair_element, which keep the field order in an OrderedSet (paragraphs without duplicates) or a LinkedList of elements - are verified from the real AST of debian._util (same contracts as C09)
+    from props import C09 as _c09
+    _c09.verify_ordering_machinery(ctx)
     import debian._deb822_repro as repro
     for q in ("Deb822NoDuplicateFieldsParagraphElement.set_kvpair_element",
               "Deb822NoDuplicateFieldsParagraphElement.remove_kvpair_element",
@@ -89,7 +92,11 @@ def run(ctx):
                 if not prefix.endswith("\n"):
                     prefix += "\n"
                 suffix = text[last.end:]
-                p[key] = val
+                tgt = p
+                if rng.random() < 0.3:
+                    tgt = p.configured_view(auto_resolve_ambiguous_fields=False)     # same semantics without duplicated fields
+                    ops[-1].append("view: auto_resolve_ambiguous_fields=False")
+                tgt[key] = val
                 model = [(f.name, f.value) for f in par] + [(key, norm(val))]
             elif op == "set":
                 f = rng.choice(par)
@@ -97,7 +104,11 @@ def run(ctx):
                 val = rng.choice(NEWVALS)
                 ops.append([pi, "set", key, val])
                 prefix, suffix = text[:f.start], text[f.end:]
-                p[key] = val
+                tgt = p
+                if rng.random() < 0.3:
+                    tgt = p.configured_view(auto_resolve_ambiguous_fields=False)
+                    ops[-1].append("view: auto_resolve_ambiguous_fields=False")
+                tgt[key] = val
                 model = [(g.name, norm(val) if g is f else g.value) for g in par]
             else:
                 if len(par) == 1:
@@ -148,9 +159,40 @@ def run(ctx):
         if not ok or t.fail:
             break
         t.case(key=(doc, str(ops)) if ops else None, sample={"document": doc, "operations": ops} if len(ops) == 2 else None)
+    # emptying a paragraph field by field and adding a field to it afterwards: the new field stands where the paragraph was
+    for _ in range(0 if t.fail else (60 if ctx.tier == "quick" else 600)):
+        names = rng.sample(["Source", "Section", "Priority", "X-A"], rng.randint(1, 3))
+        first = "".join("%s: v%d\n" % (nm, i) for i, nm in enumerate(names))
+        rest = rng.choice(["", "\nPackage: bar\nArchitecture: all\n", "\n# c\nPackage: b\n"])
+        doc = first + rest
+        if not rest and rng.random() < 0.4:
+            doc = doc[:-1]
+        order = list(names)
+        rng.shuffle(order)
+        try:
+            d = repro.parse_deb822_file(doc.splitlines(True))
+            p = next(iter(d))
+            for nm in order:
+                del p[rng.choice([nm, nm.upper(), nm.lower()])]
+            empty_ok = len(p) == 0 and list(p) == []
+            p["Origin"] = "debian"
+            out = d.dump()
+            back = next(iter(repro.parse_deb822_file(out.splitlines(True))))
+            got = [(k, back[k]) for k in back.keys()]
+        except Exception as e:
+            t.failed("emptying a paragraph and adding a field raised %r" % (e,), document=doc, deleted=order)
+            break
+        t.case(key=("empty-then-add", doc, tuple(order)))
+        if not empty_ok or out != "Origin: debian\n" + rest or got != [("Origin", "debian")]:
+            t.failed("after deleting every field of a paragraph and adding one, the dump is not the new field in its place",
+                     document=doc, deleted=order, dump=out, expected="Origin: debian\n" + rest)
+            break
     t.done()
     ctx.level = "other"
-    ctx.explanation = "BOUNDED ONLY in this revision (see module docstring)."
+    ctx.explanation = ("PROVED from the real AST of debian._util (same contracts as C09): the LinkedList / OrderedSet operations "
+                       "underneath - set / add / delete of a field go through set_kvpair_element / remove_kvpair_element, which keep the field order in an OrderedSet (paragraphs without duplicates) or a LinkedList of elements - keep their representation invariant and act on the abstract sequence as list insert / "
+                       "delete / move. NOT proved: the element and token classes of _deb822_repro themselves - BOUNDED part (see module "
+                       "docstring).")
     ctx.assumptions += ["a deleted field disappears together with the comment lines attached to it (the parser's notion of a field's text)",
                         "documents are valid (no error tokens, unique field names per paragraph)"]
 
